@@ -171,7 +171,7 @@ func runAPI(c *Ctx, only string, rounds int) error {
 			if only != "" && call.name != only {
 				continue
 			}
-			if err := apiCase(c, e, call, 25*time.Millisecond); err != nil {
+			if err := apiCase(c, e, call, 150*time.Millisecond); err != nil {
 				_ = e.a.Close()
 				return err
 			}
